@@ -642,6 +642,56 @@ fn gen_direct(rng: &mut Rng, thorough: bool) -> Vec<DOp> {
         ops.push(DOp { kind: D_APPEND_NODE, a: 2, b: 3, c: 0, s: String::new() });
         ops.push(DOp { kind: D_APPEND_NODE, a: 1, b: 4, c: 0, s: String::new() });
         ops.push(DOp { kind: D_APPEND_TEXT, a: 4, b: 0, c: 0, s: "opt".into() });
+        if rng.chance(1, 2) {
+            // churn around the mirror: the enabled selectedcontent changes between two mirrorings
+            // (a new one inserted ahead of it, the old one removed, `multiple` added), so anything
+            // remembered from the first call is stale in the second
+            for _ in 0..rng.range(2, 7) {
+                match rng.below(8) {
+                    0 | 1 | 2 => ops.push(DOp { kind: D_CLONE_OPTION, a: 4, b: 0, c: 0, s: String::new() }),
+                    3 | 4 => {
+                        // a new selectedcontent ahead of handle 3 / 2, or as the select's last child
+                        let created = 1 + ops.iter().filter(|o| matches!(o.kind, D_CREATE_ELEM | D_CREATE_COMMENT | D_CREATE_PI)).count() as u32;
+                        ops.push(DOp { kind: D_CREATE_ELEM, a: 5, b: 0, c: 0, s: String::new() });
+                        match rng.below(3) {
+                            0 => ops.push(DOp { kind: D_BEFORE_NODE, a: 3, b: created, c: 0, s: String::new() }),
+                            1 => ops.push(DOp { kind: D_BEFORE_NODE, a: 2, b: created, c: 0, s: String::new() }),
+                            _ => ops.push(DOp { kind: D_APPEND_NODE, a: 1, b: created, c: 0, s: String::new() }),
+                        }
+                    },
+                    5 => ops.push(DOp { kind: D_REMOVE, a: *rng.pick(&[2u32, 3]), b: 0, c: 0, s: String::new() }),
+                    6 => ops.push(DOp { kind: D_APPEND_TEXT, a: 4, b: 0, c: 0, s: "more".into() }),
+                    _ => ops.push(DOp { kind: D_ADD_ATTRS, a: 1, b: 1 << 3, c: 0, s: String::new() }),
+                }
+            }
+        }
+    } else if rng.chance(1, 8) {
+        // a wide parent: child lists around 32 / 64 entries, then look-ups of early and late children
+        ops.push(DOp { kind: D_CREATE_ELEM, a: 0, b: 0, c: 0, s: String::new() }); // div = handle 1
+        let k = *rng.pick(&[15u32, 16, 17, 30, 31, 32, 33, 34, 35, 36, 40, 63, 64, 65, 66, 70]);
+        for i in 0..k {
+            if rng.chance(1, 3) {
+                ops.push(DOp { kind: D_CREATE_ELEM, a: 10, b: 0, c: 0, s: String::new() });
+            } else {
+                ops.push(DOp { kind: D_CREATE_COMMENT, a: 0, b: 0, c: 0, s: "c".into() });
+            }
+            ops.push(DOp { kind: D_APPEND_NODE, a: 1, b: 2 + i, c: 0, s: String::new() });
+        }
+        for _ in 0..rng.range(1, 6) {
+            let early = 2 + rng.below(4) as u32;
+            let any = 2 + rng.below(k as usize) as u32;
+            let late = 1 + k - rng.below(3) as u32;
+            let t = *rng.pick(&[early, early, any, late]);
+            match rng.below(4) {
+                0 | 1 => ops.push(DOp { kind: D_REMOVE, a: t, b: 0, c: 0, s: String::new() }),
+                2 => ops.push(DOp { kind: D_BEFORE_TEXT, a: t, b: 0, c: 0, s: "t".into() }),
+                _ => {
+                    let created = 1 + ops.iter().filter(|o| matches!(o.kind, D_CREATE_ELEM | D_CREATE_COMMENT | D_CREATE_PI)).count() as u32;
+                    ops.push(DOp { kind: D_CREATE_ELEM, a: 1, b: 0, c: 0, s: String::new() });
+                    ops.push(DOp { kind: D_BEFORE_NODE, a: t, b: created, c: 0, s: String::new() });
+                },
+            }
+        }
     }
     for _ in 0..n {
         let kind = rng.weighted(&[20, 4, 18, 10, 10, 8, 5, 8, 5, 6, 8, 1, 3, 2]) as u8;
@@ -775,11 +825,17 @@ impl RcDomWorld {
                     SizeClass::Huge => SizeClass::Large,
                     s => s,
                 };
-                let mut input = gen_html(rng, size);
+                let mut input = if rng.chance(1, 120) { crate::gen_html::gen_scale_input(rng) } else { gen_html(rng, size) };
                 if rng.chance(1, 4) {
                     let at = rng.below(input.chars().count() + 1);
                     let byte = input.char_indices().nth(at).map(|(b, _)| b).unwrap_or(input.len());
-                    input.insert_str(byte, rng.pick_str(SELECT_SKELETONS));
+                    if rng.chance(1, 2) {
+                        input.insert_str(byte, rng.pick_str(SELECT_SKELETONS));
+                    } else {
+                        let mut sc = String::new();
+                        crate::gen_html::gen_select_scenario(rng, &mut sc);
+                        input.insert_str(byte, &sc);
+                    }
                 }
                 let n = input.chars().count();
                 let cuts = (0..rng.small(3)).map(|_| rng.below(n + 1)).collect();
